@@ -547,11 +547,11 @@ def malformed_tree(rng, fields, n, depth):
     return tg.leaf()
 
 
-def cases(rng, tier):
+def stream_main(rng, tier, count):
     quick = tier == "quick"
     maxdepth = 4 if quick else 6
     # ---- main stream: mostly valid trees
-    for _ in range(6000 if quick else 24000):
+    for _ in range(count):
         spec, dims, fields = gen_env(rng, tier)
         tg = TreeGen(rng, fields, spec["n"], maxdepth)
         g = tg.gen(rng.randint(1, maxdepth))
@@ -560,8 +560,11 @@ def cases(rng, tier):
             g = tg.gen(rng.randint(1, maxdepth))
             tries += 1
         yield dict(kind="tree", meshes=[spec], fields=fields, expr=g.node)
+
+
+def stream_route3(rng, tier, count):
     # ---- route (iii): angle / phase at the root, tolerance division
-    for _ in range(500 if quick else 2000):
+    for _ in range(count):
         spec, dims, fields = gen_env(rng, tier, same_nv=True)
         fields = [f for f in fields if f["im"] is None] or [gen_field_spec(rng, 0, int(np.prod(spec["n"])), len(spec["n"]), dims, dtype="float64")]
         tg = TreeGen(rng, fields, spec["n"], 2, allow_cplx=False)
@@ -596,13 +599,19 @@ def cases(rng, tier):
                 R = gen_num(rng, allow_cplx=False)
             op = rng.choice(["div", "div", "udiv"])
             yield dict(kind="tdiv", meshes=[spec], fields=fields, expr=dict(t="bin", op=op, l=L.node, r=R.node))
+
+
+def stream_malformed(rng, tier, count):
     # ---- malformed stream
-    for _ in range(1200 if quick else 5000):
+    for _ in range(count):
         spec, dims, fields = gen_env(rng, tier)
         g = malformed_tree(rng, fields, spec["n"], rng.randint(1, 3))
         yield dict(kind="malformed", meshes=[spec], fields=fields, expr=g.node)
-    # ---- mismatch stream: different meshes / component counts under every binary operation
-    for _ in range(600 if quick else 2500):
+
+
+def stream_mismatch(rng, tier, count):
+    # ---- mismatch stream: different meshes / component counts under every binary operation (operators and ufuncs)
+    for _ in range(count):
         spec, dims, _ = gen_env(rng, tier, nfields=1)
         n = spec["n"]
         ndim = len(n)
@@ -645,8 +654,11 @@ def cases(rng, tier):
         if rng.random() < 0.3 and op not in ("angle",):
             node = dict(t="un", op="neg", e=node)
         yield dict(kind="angle" if op == "angle" else "mismatch", how=how, meshes=[spec, spec2], fields=[f1, f2], expr=node)
-    # ---- metadata stream: a∘b vs b∘a, labelled scalars, differing labels, stacking
-    for _ in range(600 if quick else 2500):
+
+
+def stream_meta(rng, tier, count):
+    # ---- metadata stream: a∘b vs b∘a, labelled scalars, differing labels
+    for _ in range(count):
         spec, dims, _ = gen_env(rng, tier, nfields=1)
         n = spec["n"]
         ndim = len(n)
@@ -660,11 +672,32 @@ def cases(rng, tier):
         op = rng.choice(["add", "mul"])
         yield dict(kind="tree", meshes=[spec], fields=[f1, f2],
                    expr=dict(t="bin", op=op, l=dict(t="leaf", k=0), r=dict(t="leaf", k=1)))
-    for _ in range(300 if quick else 1200):
+
+
+def stream_stack(rng, tier, count):
+    # ---- stacking the components of one field
+    for _ in range(count):
         spec, dims, _ = gen_env(rng, tier, nfields=1)
         n = spec["n"]
         f1 = gen_field_spec(rng, 0, int(np.prod(n)), len(n), dims, nv=rng.choice([1, 2, 3, 3, 4, len(n)]))
         yield dict(kind="stack", meshes=[spec], fields=[f1])
+
+
+def cases(rng, tier):
+    """all streams interleaved (deterministically, by the run's PRNG), so a run cut short by the time budget still
+    exercises every stream"""
+    quick = tier == "quick"
+    plan = [(stream_main, 4600 if quick else 24000), (stream_route3, 450 if quick else 2000),
+            (stream_malformed, 1000 if quick else 5000), (stream_mismatch, 550 if quick else 2500),
+            (stream_meta, 550 if quick else 2500), (stream_stack, 250 if quick else 1200)]
+    gens = [fn(rng, tier, cnt) for fn, cnt in plan]
+    schedule = [k for k, (_, cnt) in enumerate(plan) for _ in range(cnt)]
+    rng.shuffle(schedule)
+    for k in schedule:
+        try:
+            yield next(gens[k])
+        except StopIteration:
+            continue
 
 
 # ====================================================================== real code
